@@ -408,6 +408,12 @@ Proof. now rewrite !urls_infos, infos_add_many, map_app. Qed.
 Lemma added_incl l t i : In i (added l t) -> In i l.
 Proof. destruct (add_many_added l t) as [_ H]. apply H. Qed.
 
+Lemma batch_incl {A} (i n : nat) (l : list A) u : In u (firstn n (skipn i l)) -> In u l.
+Proof.
+  intros Hu. rewrite <- (firstn_skipn i l). apply in_or_app. right.
+  rewrite <- (firstn_skipn n (skipn i l)). apply in_or_app. now left.
+Qed.
+
 Lemma added_cover l t i : In i l -> In (ri_url i) (urls t) \/ exists i', In i' (added l t) /\ ri_url i' = ri_url i.
 Proof.
   intros Hi. pose proof (add_many_covers l t i Hi) as C. rewrite urls_add_many in C.
@@ -444,7 +450,8 @@ Section Inv.
     ih_hosts : forall h, In h (st_hosts s) <->
                  exists i, In i (infos (st_tbl s)) /\ ri_level i = 0 /\ host (ri_url i) = h;
     ih_lvl0 : forall i, In i (infos (st_tbl s)) -> ri_level i = 0 -> i = start_info (ri_url i) /\ In (ri_url i) starts;
-    ih_starts0 : (st_tbl s = [] /\ st_hosts s = []) \/ (forall u, In u starts -> In (start_info u) (infos (st_tbl s)));
+    (* before the first completed start-up the table holds only (some of the) start rows *)
+    ih_starts0 : (forall i, In i (infos (st_tbl s)) -> ri_level i = 0) \/ (forall u, In u starts -> In (start_info u) (infos (st_tbl s)));
     ih_running : st_mode s = Running ->
                  (forall u, In u starts -> In (start_info u) (infos (st_tbl s))) /\ (forall h, In h (st_span s) <-> In h sp0);
     ih_items : forall it, In it (st_items s) -> forall l, In (AAddMany l) (it_todo it) -> forall i, In i l -> ri_level i <> 0
@@ -453,7 +460,8 @@ Section Inv.
   Lemma InvH_init : InvH init.
   Proof.
     constructor; cbn; try (intros; contradiction); try discriminate; auto.
-    intros h. split; [intros [] | intros [i [[] _]]].
+    - intros h. split; [intros [] | intros [i [[] _]]].
+    - left. intros i [].
   Qed.
 
   (* an add_many of rows of level > 0 changes neither the hostnames nor the level-0 rows *)
@@ -463,6 +471,30 @@ Section Inv.
     exfalso. apply (L i); [now apply (added_incl l t) | assumption].
   Qed.
 
+  (* an add_many of start rows (all of them, or one batch) keeps the hostname and level-0 clauses *)
+  Lemma InvH_add_batch s (b : list url) : InvH s -> (forall u, In u b -> In u starts) ->
+    let l := map start_info b in
+    (forall i, In i (infos (add_many l (st_tbl s))) -> ri_level i = 0 -> i = start_info (ri_url i) /\ In (ri_url i) starts) /\
+    (forall h, In h (hosts_after host l (st_tbl s) (st_hosts s)) <->
+               exists i, In i (infos (add_many l (st_tbl s))) /\ ri_level i = 0 /\ host (ri_url i) = h) /\
+    ((forall i, In i (infos (add_many l (st_tbl s))) -> ri_level i = 0) \/
+     (forall u, In u starts -> In (start_info u) (infos (add_many l (st_tbl s))))).
+  Proof.
+    intros [Ih Il Is Ir Ii] Hsub l.
+    assert (Hl : forall i, In i l -> i = start_info (ri_url i) /\ In (ri_url i) starts).
+    { intros i Hi. apply in_map_iff in Hi. destruct Hi as [u [<- Hu]]. auto. }
+    split; [|split].
+    - intros i Hi L0. rewrite infos_add_many in Hi. apply in_app_or in Hi. destruct Hi as [Hi|Hi]; [now apply Il|].
+      apply Hl. now apply (added_incl l (st_tbl s)).
+    - intros h. rewrite In_hosts_after, Ih. rewrite infos_add_many. split.
+      + intros [[i [Hi R]]|[i [Hi R]]]; exists i; (split; [apply in_or_app; auto | exact R]).
+      + intros [i [Hi R]]. apply in_app_or in Hi. destruct Hi as [Hi|Hi]; [left|right]; eauto.
+    - destruct Is as [L0|Is]; [left|right].
+      + intros i Hi. rewrite infos_add_many in Hi. apply in_app_or in Hi. destruct Hi as [Hi|Hi]; [now apply L0|].
+        apply (added_incl l (st_tbl s)) in Hi. apply in_map_iff in Hi. destruct Hi as [u [<- _]]. reflexivity.
+      + intros u Hu. rewrite infos_add_many. apply in_or_app. left. now apply Is.
+  Qed.
+
   Lemma InvH_step s s' : InvH s -> step s s' -> InvH s'.
   Proof.
     intros I [l H]. destruct l; cbn [Engine.fire] in H.
@@ -470,7 +502,6 @@ Section Inv.
       destruct (st_mode s) eqn:M; try discriminate.
       destruct (pick (st_tbl s)) as [r|] eqn:P; [|discriminate]. inversion H; subst s'; clear H.
       destruct I as [Ih Il Is Ir Ii]. constructor; cbn; rewrite ?infos_upd by auto with eng; auto.
-      + right. apply (proj1 (Ir M)).
       + intros it Hi. apply in_app_or in Hi. destruct Hi as [Hi|[<-|[]]]; [now apply Ii|].
         cbn. intros l Hl i Hi'. eapply plan_adds_level; eauto.
     - (* start *)
@@ -498,7 +529,6 @@ Section Inv.
       destruct a as [q ini|c|k|st]; cbn [apply_tbl apply_hosts].
       + constructor; cbn; auto.
       + constructor; cbn; rewrite ?infos_upd by auto with eng; auto.
-        right. apply (proj1 (Ir M)).
       + assert (Lk : forall i, In i k -> ri_level i <> 0) by (apply (Ii it Hit); rewrite T; now left).
         assert (Hnew : forall i, In i (infos (add_many k (st_tbl s))) -> In i (infos (st_tbl s)) \/ (In i k /\ ri_level i <> 0)).
         { intros i Hi. rewrite infos_add_many in Hi. apply in_app_or in Hi. destruct Hi as [Hi|Hi]; [now left|right].
@@ -513,7 +543,6 @@ Section Inv.
           intros u Hu. rewrite infos_add_many. apply in_or_app. left. now apply Ir1.
         * exact Hits.
       + constructor; cbn; rewrite ?infos_upd by auto with eng; auto.
-        right. apply (proj1 (Ir M)).
     - (* crash *)
       inversion H; subst s'; clear H. destruct I as [Ih Il Is Ir Ii]. constructor; cbn; auto; try discriminate.
       all: try (intros it []).
@@ -521,33 +550,31 @@ Section Inv.
       destruct (st_mode s) eqn:M; try discriminate. inversion H; subst s'; clear H.
       destruct I as [Ih Il Is Ir Ii]. constructor; cbn; rewrite ?infos_release; auto; try discriminate.
       all: try (intros it []).
-      destruct Is as [[E0 E1]|Is]; [|now right]. left. rewrite E0. auto.
     - (* add start URLs *)
       destruct (st_mode s) eqn:M; try discriminate. inversion H; subst s'; clear H.
+      destruct (InvH_add_batch s starts I (fun u Hu => Hu)) as [Hlv [Hh Hs0]].
       destruct I as [Ih Il Is Ir Ii].
-      set (l := map start_info starts).
-      assert (Hl : forall i, In i l -> i = start_info (ri_url i) /\ In (ri_url i) starts).
-      { intros i Hi. apply in_map_iff in Hi. destruct Hi as [u [<- Hu]]. auto. }
+      set (l := map start_info starts) in *.
       assert (Hcov : forall u, In u starts -> In (start_info u) (infos (add_many l (st_tbl s)))).
-      { intros u Hu. rewrite infos_add_many. destruct Is as [[E0 _]|Is].
+      { intros u Hu. rewrite infos_add_many. destruct Is as [L0|Is].
         - assert (Hi : In (start_info u) l) by (now apply in_map).
           destruct (added_cover l (st_tbl s) _ Hi) as [C|[i' [Hi' Eu]]].
-          + rewrite E0 in C. destruct C.
-          + apply in_or_app. right. destruct (Hl i' (added_incl _ _ _ Hi')) as [Ei' _].
-            cbn in Eu. rewrite Eu in Ei'. now rewrite <- Ei'.
+          + apply in_or_app. left. rewrite urls_infos in C. apply in_map_iff in C. destruct C as [i0 [E0 H0]].
+            cbn in E0. destruct (Il i0 H0 (L0 i0 H0)) as [Ei0 _]. rewrite E0 in Ei0. now rewrite <- Ei0.
+          + apply in_or_app. right. assert (Hi'l : In i' l) by (now apply (added_incl l (st_tbl s))).
+            apply in_map_iff in Hi'l. destruct Hi'l as [u' [<- Hu']]. cbn in Eu. now rewrite Eu in Hi'.
         - apply in_or_app. left. now apply Is. }
-      assert (Hlv : forall i, In i (infos (add_many l (st_tbl s))) -> ri_level i = 0 -> i = start_info (ri_url i) /\ In (ri_url i) starts).
-      { intros i Hi L0. rewrite infos_add_many in Hi. apply in_app_or in Hi. destruct Hi as [Hi|Hi]; [now apply Il|].
-        apply Hl. now apply (added_incl l (st_tbl s)). }
-      assert (Hh : forall h, In h (hosts_after host l (st_tbl s) (st_hosts s)) <->
-                     exists i, In i (infos (add_many l (st_tbl s))) /\ ri_level i = 0 /\ host (ri_url i) = h).
-      { intros h. rewrite In_hosts_after, Ih. rewrite infos_add_many. split.
-        - intros [[i [Hi R]]|[i [Hi R]]]; exists i; (split; [apply in_or_app; auto | exact R]).
-        - intros [i [Hi R]]. apply in_app_or in Hi. destruct Hi as [Hi|Hi]; [left|right]; eauto. }
       constructor; cbn; auto.
       intros _. split; [exact Hcov|]. intros h. rewrite Hh. unfold sp0. split.
       + intros [i [Hi [L0 <-]]]. apply in_map. now apply Hlv.
       + intros Hs. apply in_map_iff in Hs. destruct Hs as [u [<- Hu]]. exists (start_info u). auto.
+    - (* one batch of the start URLs *)
+      destruct (st_mode s) eqn:M; try discriminate. destruct ((0 <? n) && (st_batch s + n <=? length starts))%nat eqn:G; [|discriminate]. inversion H; subst s'; clear H.
+      assert (Hsub : forall u, In u (firstn n (skipn (st_batch s) starts)) -> In u starts).
+      { intros u. apply batch_incl. }
+      destruct (InvH_add_batch s _ I Hsub) as [Hlv [Hh Hs0]].
+      destruct I as [Ih Il Is Ir Ii].
+      constructor; cbn; auto; discriminate.
   Qed.
 
   Lemma reach_InvH s : reach s -> InvH s.
@@ -686,6 +713,7 @@ Section Inv.
     - inversion H; subst s'; cbn. assumption.
     - destruct (st_mode s); try discriminate. inversion H; subst s'; cbn. now rewrite infos_release.
     - destruct (st_mode s); try discriminate. inversion H; subst s'; cbn. rewrite infos_add_many. apply in_or_app. now left.
+    - destruct (st_mode s); try discriminate. destruct ((0 <? n) && (st_batch s + n <=? length starts))%nat eqn:G; [|discriminate]. inversion H; subst s'; cbn. rewrite infos_add_many. apply in_or_app. now left.
   Qed.
 
   Lemma step_log_incl s s' : step s s' -> forall e, In e (st_log s) -> In e (st_log s').
@@ -699,6 +727,7 @@ Section Inv.
     - inversion H; subst s'; cbn. assumption.
     - destruct (st_mode s); try discriminate. inversion H; subst s'; cbn. assumption.
     - destruct (st_mode s); try discriminate. inversion H; subst s'; cbn. assumption.
+    - destruct (st_mode s); try discriminate. destruct ((0 <? n) && (st_batch s + n <=? length starts))%nat eqn:G; [|discriminate]. inversion H; subst s'; cbn. assumption.
   Qed.
 
   (* log soundness is carried along by every step *)
@@ -936,6 +965,21 @@ Section Inv.
         * exfalso. destruct C' as [C'|[C'|C']]; discriminate.
       + apply (log_sound_keep s _ St0). apply inv_log_sound; assumption.
       + intros r' Hr' S'. apply add_many_In in Hr'. destruct Hr' as [Hr' | [i [_ ->]]]; [now apply inv_colog|].
+        exfalso. now apply S'.
+      + intros u Hu. apply add_many_incl. now apply inv_colog_tbl.
+    - (* one batch of the start URLs *)
+      destruct (st_mode s) eqn:M; try discriminate. destruct ((0 <? n) && (st_batch s + n <=? length starts))%nat eqn:G; [|discriminate]. inversion H; subst s'; clear H.
+      constructor; cbn; try congruence; try discriminate; try apply NoDup_nil.
+      + apply add_many_nodup, inv_nodup; assumption.
+      + intros _ r' Hr' S'. apply add_many_In in Hr'. destruct Hr' as [Hr' | [i0 [_ ->]]]; [|discriminate].
+        now apply (inv_starting s I M r' Hr').
+      + intros it [].
+      + intros r' Hr' C'. apply add_many_In in Hr'. destruct Hr' as [Hr' | [i0 [_ ->]]].
+        * destruct (inv_nothing_lost s I r' Hr' C') as [t [Et' [Hk Hq]]]. exists t. split; [assumption|]. split; [|assumption].
+          intros ci Hci. apply add_many_incl. now apply Hk.
+        * exfalso. destruct C' as [C'|[C'|C']]; discriminate.
+      + apply (log_sound_keep s _ St0). apply inv_log_sound; assumption.
+      + intros r' Hr' S'. apply add_many_In in Hr'. destruct Hr' as [Hr' | [i0 [_ ->]]]; [now apply inv_colog|].
         exfalso. now apply S'.
       + intros u Hu. apply add_many_incl. now apply inv_colog_tbl.
   Qed.
